@@ -195,7 +195,7 @@ func (m *MonC04) AfterBlock(o *BlockOutcome) {
 		return
 	}
 	m.sumCheck("end-block", o.Idx, o.PostEnd)
-	if !m.R.Halt {
+	if !m.R.Halt && !o.tainted {
 		m.sumCheck("begin-block", o.Idx, o.PostBeg)
 	}
 }
@@ -299,8 +299,16 @@ func (m *MonC05) classify(op string, res TxResult, s *Snap, val, denom string, a
 			return "subshare-stuck", fmt.Sprintf("%s on %s/%s fails with %q: the validator's delegator-share total is %s (< 1), tokens are converted to shares 1:1 and the position, although worth >= 1 token, can never be undelegated", op, m.R.W.Name(val), denom, msg, S)
 		}
 	}
-	if strings.Contains(msg, "insufficient funds") && strings.Contains(msg, "spendable balance") && m.R.PoolShort {
-		return "pool-short", fmt.Sprintf("%s fails with %q: the rewards pool cannot pay the claim made on the way (consequence of the recorded C12 findings)", op, msg)
+	if strings.Contains(msg, "insufficient funds") && strings.Contains(msg, "spendable balance") {
+		// a single claim only brings in its own validator's pending rewards: it can fail where claiming
+		// everything succeeds. The shortfall must be explained by one of the recorded C12 mechanisms.
+		c12 := &MonC12{BaseMon{m.R}, m.R.rewardShadow()}
+		if cause, why := c12.classify(s, msg); cause != "" {
+			return "pool-short", fmt.Sprintf("%s fails with %q: the rewards pool cannot pay the claim made on the way (C12 %s: %s)", op, msg, cause, why)
+		}
+		if m.R.PoolShort {
+			return "pool-short", fmt.Sprintf("%s fails with %q: the rewards pool cannot pay the claim made on the way (consequence of the recorded C12 findings)", op, msg)
+		}
 	}
 	if huge && (strings.Contains(msg, "negative coin amount") || strings.Contains(msg, "overflow") || strings.Contains(msg, "insufficient tokens") || strings.Contains(msg, "insufficient delegation shares") || strings.Contains(msg, "division by zero")) {
 		return "precision-18dec", fmt.Sprintf("%s fails at magnitude >= 1e16 with %q: 18-digit share/token ratios lose base-unit precision", op, msg)
